@@ -312,3 +312,20 @@ def par_map(fn, jobs, nproc=None):
     mp = multiprocessing.get_context('fork')
     with mp.Pool(nproc) as pool:
         return pool.map(fn, jobs, chunksize=1)
+
+
+def all_models(solver, terms, limit=400):
+    """every assignment of `terms` (bit-vector / bool z3 terms) consistent with the solver's assertions, up to `limit` (None if exceeded).
+    A path fixes only the comparisons the code made; inputs the code never looked at are free and all their values must be examined."""
+    import z3
+    out = []
+    solver.push()
+    while True:
+        if solver.check() != z3.sat: break
+        m = solver.model()
+        vals = [m.eval(t, True) for t in terms]
+        out.append(vals)
+        if len(out) > limit: solver.pop(); return None
+        solver.add(z3.Or([t != v for t, v in zip(terms, vals)]) if terms else z3.BoolVal(False))
+    solver.pop()
+    return out
